@@ -15,6 +15,7 @@ mod psetmerge;
 mod psetview;
 mod scalar;
 mod script;
+mod serdes;
 mod sha256c;
 mod sighash;
 mod taproot;
@@ -82,6 +83,7 @@ fn main() {
         ("script", "templates") => script::templates(rest, &mut out),
         ("addr", "strings") => addr::strings(rest, &mut out),
         ("addr", "valid") => addr::valid(rest, &mut out),
+        ("serde", "replay") => serdes::replay(rest, &mut out),
         ("dynafed", "record") => dynafed::record(rest, &mut out),
         (m, c) => {
             eprintln!("unknown command {} {}", m, c);
